@@ -2,6 +2,7 @@ import RedactVerif.Props.L2
 import RedactVerif.Props.FactsReset
 import RedactVerif.Props.FactsSkelPrinter
 import RedactVerif.Proofs.EqW
+import RedactVerif.Proofs.EqF
 /-
 C15 — HelperForErrorf returns the %w operand and the Sprintf text.
 
@@ -100,6 +101,18 @@ theorem errorf_text_eq_sprintf_no_w_byte (env : Env) (f : List Byte) (args : Lis
 theorem errorf_text_eq_sprintf_ascii (env : Env) (f : List Byte) (args : List Val) (h : ∀ x ∈ f, x < 0x80 ∧ x ≠ 0x77) :
     (helperForErrorf env f args).output = (sprintf env f args).output :=
   errorf_text_eq_sprintf env f args (EqW.noW_of_ascii f h)
+
+/-- **For a format without a `%w` directive `HelperForErrorf` returns no error** ("nil in every other case", for the
+case of no `%w` at all): the capture field is still empty when the call returns (Proofs/EqF.lean: under a verb other
+than `w` every function of the printer leaves `wrapErrs` and `wrappedErr` as it found them). -/
+theorem errorf_returns_nil_without_w (env : Env) (f : List Byte) (args : List Val) (hf : EqW.NoW f) (q : PP)
+    (h : helperForErrorf env f args = .ok q) : q.wrappedErr = none :=
+  (EqF.doPrintf_keeps_capture env defaultFuel { newPP with wrapErrs := true } f args hf q h).2
+
+/-- An operand printed under a verb other than `w` neither captures nor cancels a capture. -/
+theorem printArg_keeps_capture (env : Env) (n : Nat) (p : PP) (v : Val) (verb : Nat) (hv : verb ≠ 119) (q : PP)
+    (h : printArg env n p v verb = .ok q) : q.wrapErrs = p.wrapErrs ∧ q.wrappedErr = p.wrappedErr :=
+  EqF.printArg_keeps_capture env n p v verb hv q h
 
 /-- Every operand printed under a verb other than `w` is printed the same with and without capture enabled, whatever
 has been captured so far (the operand-level statement behind the theorem above). -/
